@@ -240,6 +240,22 @@ Next_JunkMC ==
   \/ List("none")
 
 -----------------------------------------------------------------------------
+(* C18: symbolic links as arguments                                                   *)
+
+KindsLinks == [o \in Objs |-> IF o % 2 = 1 THEN "link" ELSE "dlink"]
+LiveLinks == {[r |-> "R", d |-> "d", n |-> "a", o |-> 1], [r |-> "V1", d |-> "top", n |-> "a", o |-> 2],
+              [r |-> "V1", d |-> "d", n |-> "b", o |-> 3], [r |-> "V2", d |-> "d", n |-> "a", o |-> 5],
+              [r |-> "R", d |-> "top", n |-> "b", o |-> 7], [r |-> "H", d |-> "d", n |-> "b", o |-> 9]}
+Init_Links ==
+  /\ cfg \in {[mounted |-> m, top |-> TopOn("V1", x), altfile |-> {}, xdg |-> xd, home |-> "set", kind |-> KindsLinks] :
+                 m \in Layouts, x \in {"absent", "sticky"}, xd \in {"set", "unset"}}
+  /\ dirs = BaseDirs /\ live = LiveLinks /\ EmptyTrash
+  /\ clock = 1 /\ purged = {} /\ out = [cmd |-> "init"]
+Next_PutLink ==
+  \E e \in LiveLinks, o \in {x \in PutOptsSet : x.td = "none" /\ ~x.force /\ x.inter \in {"off", "accept"} /\ (x.hf => x.hfenv)} :
+     Put(<<[class |-> "entry", r |-> e.r, d |-> e.d, n |-> e.n]>>, o) /\ Emit
+
+-----------------------------------------------------------------------------
 (* C16: argument lists                                                                *)
 
 LiveArgsL == {[r |-> "R", d |-> "d", n |-> "a", o |-> 1], [r |-> "V1", d |-> "top", n |-> "a", o |-> 2],
